@@ -234,7 +234,7 @@ package tcp
 //@   ensures ghost(lastTCPFlags) == int(flags) && ghost(lastTCPSeq) == int(uint32(seq)) && ghost(lastTCPAck) == int(uint32(ack))
 //@   ensures ghost(sentNonFin) == old(ghost(sentNonFin)) + ite(flags & flagFin == 0, 1, 0)
 //@   ensures ghost(sentFin) == old(ghost(sentFin)) + ite(flags & flagFin != 0, 1, 0)
-//@   modifies everything_but("protocol/transport/tcp.sender", "protocol/transport/tcp.receiver", "protocol/transport/tcp.endpoint", "protocol/transport/tcp.segment"), structfamily("protocol/transport/tcp.endpoint", "segmentQueue"), ghost(tcpSegs), ghost(lastTCPFlags), ghost(lastTCPSeq), ghost(lastTCPAck), ghost(sentNonFin), ghost(sentFin)
+//@   modifies modset(NETSEND)
 
 // The advertised right edge never moves backwards (serial order) and the returned window is
 // the distance to it, scaled.
@@ -250,7 +250,7 @@ package tcp
 //@   ensures ghost(sentNonFin) == old(ghost(sentNonFin)) + ite(flags & flagFin == 0, 1, 0)
 //@   ensures ghost(sentFin) == old(ghost(sentFin)) + ite(flags & flagFin != 0, 1, 0)
 //@   ensures s.maxSentAck == s.ep.rcv.rcvNxt
-//@   modifies everything_but("protocol/transport/tcp.sender", "protocol/transport/tcp.receiver", "protocol/transport/tcp.endpoint", "protocol/transport/tcp.segment"), structfamily("protocol/transport/tcp.endpoint", "segmentQueue"), ghost(tcpSegs), ghost(lastTCPFlags), ghost(lastTCPSeq), ghost(lastTCPAck), ghost(sentNonFin), ghost(sentFin)
+//@   modifies modset(NETSEND)
 //@   modifies s.lastSendTime, s.rttMeasureTime, s.maxSentAck, s.ep.rcv.rcvAcc
 
 //@ func (*endpoint).disableKeepaliveTimer props C05 C04
@@ -273,7 +273,7 @@ package tcp
 //@   ensures ghost(sentNonFin) - old(ghost(sentNonFin)) == s.outstanding - old(s.outstanding)
 //@   loop 1 invariant s.outstanding >= old(s.outstanding) && (s.outstanding == old(s.outstanding) || s.outstanding <= s.sndCwnd) && s.outstanding <= 1 << 41
 //@   loop 1 invariant ghost(sentNonFin) - old(ghost(sentNonFin)) == s.outstanding - old(s.outstanding)
-//@   modifies everything_but("protocol/transport/tcp.sender", "protocol/transport/tcp.receiver", "protocol/transport/tcp.endpoint", "protocol/transport/tcp.segment"), structfamily("protocol/transport/tcp.endpoint", "segmentQueue"), ghost(tcpSegs), ghost(lastTCPFlags), ghost(lastTCPSeq), ghost(lastTCPAck), ghost(sentNonFin), ghost(sentFin)
+//@   modifies modset(NETSEND)
 //@   modifies s.sndCwnd, s.outstanding, s.sndNxt, s.writeNext, s.writeList.tail, s.lastSendTime, s.rttMeasureTime, s.maxSentAck
 //@   modifies s.resendTimer.state, s.resendTimer.target, s.resendTimer.runtimeTarget, s.ep.rcv.rcvAcc
 //@   modifies s.ep.keepalive.unacked, s.ep.keepalive.timer.state, s.ep.keepalive.timer.target, s.ep.keepalive.timer.runtimeTarget
@@ -293,7 +293,7 @@ package tcp
 //@            && 0 <= s.outstanding && s.outstanding <= 1 && ghost(sentNonFin) - old(ghost(sentNonFin)) == s.outstanding
 //@            && old(s.resendTimer.state) != timerStateOrphaned)
 //@   ensures s.rto >= 200000000
-//@   modifies everything_but("protocol/transport/tcp.sender", "protocol/transport/tcp.receiver", "protocol/transport/tcp.endpoint", "protocol/transport/tcp.segment"), structfamily("protocol/transport/tcp.endpoint", "segmentQueue"), ghost(tcpSegs), ghost(lastTCPFlags), ghost(lastTCPSeq), ghost(lastTCPAck), ghost(sentNonFin), ghost(sentFin)
+//@   modifies modset(NETSEND)
 //@   modifies s.rto, s.fr.active, s.fr.first, s.fr.last, s.fr.maxCwnd, s.dupAckCount, s.sndSsthresh
 //@   modifies s.sndCwnd, s.outstanding, s.sndNxt, s.writeNext, s.writeList.tail, s.lastSendTime, s.rttMeasureTime, s.maxSentAck
 //@   modifies s.resendTimer.state, s.resendTimer.target, s.resendTimer.runtimeTarget, s.ep.rcv.rcvAcc
@@ -317,7 +317,7 @@ package tcp
 //@   ensures ghost(sentNonFin) == old(ghost(sentNonFin)) + ite(flags & flagFin == 0, 1, 0)
 //@   ensures ghost(sentFin) == old(ghost(sentFin)) + ite(flags & flagFin != 0, 1, 0)
 //@   loop 1 invariant -1 <= rangeindex && rangeindex < len(data.views)
-//@   modifies everything_but("protocol/transport/tcp.sender", "protocol/transport/tcp.receiver", "protocol/transport/tcp.endpoint", "protocol/transport/tcp.segment"), structfamily("protocol/transport/tcp.endpoint", "segmentQueue"), ghost(tcpSegs), ghost(lastTCPFlags), ghost(lastTCPSeq), ghost(lastTCPAck), ghost(sentNonFin), ghost(sentFin)
+//@   modifies modset(NETSEND)
 
 // A parsed segment: the fields are those of the header; the data offset must lie between 20
 // and the bytes present in the first view, otherwise parsing fails and nothing is read beyond
@@ -339,7 +339,7 @@ package tcp
 //@   ensures ghost(tcpSegs) == old(ghost(tcpSegs)) + 1 && ghost(lastTCPFlags) == int(flagRst | flagAck)
 //@   ensures ghost(lastTCPSeq) == ite(old(s.flags) & flagAck != 0, int(uint32(old(s.ackNumber))), 0)
 //@   ensures ghost(lastTCPAck) == int(uint32(old(s.sequenceNumber) + seqnum.Value(old(s.logicalLen()))))
-//@   modifies everything(), ghost(tcpSegs), ghost(lastTCPFlags), ghost(lastTCPSeq), ghost(lastTCPAck), ghost(sentNonFin), ghost(sentFin)
+//@   modifies everything(), modset(NETGHOSTS)
 
 // A segment for which no socket exists: unparsable segments and resets are not answered;
 // anything else is answered by exactly one reset.
@@ -350,7 +350,7 @@ package tcp
 //@   ensures implies(ghost(tcpSegs) != old(ghost(tcpSegs)), old(vv.views[0][13]) & flagRst == 0)
 //@   ensures implies(result && old(vv.views[0][13]) & flagRst != 0, ghost(tcpSegs) == old(ghost(tcpSegs)))
 //@   ensures implies(result && old(vv.views[0][13]) & flagRst == 0, ghost(tcpSegs) == old(ghost(tcpSegs)) + 1)
-//@   modifies everything(), ghost(tcpSegs), ghost(lastTCPFlags), ghost(lastTCPSeq), ghost(lastTCPAck), ghost(sentNonFin), ghost(sentFin)
+//@   modifies everything(), modset(NETGHOSTS)
 
 // A handshake segment whose ACK acknowledges anything but ISS+1 is refused and answered by
 // exactly one reset whose sequence number is that acknowledgement number; a segment without
